@@ -162,11 +162,15 @@ def run_backend(backend, symbols, root):
         if backend == 'reference':
             results = interp.evaluate(symbols)
         elif backend == 'reference-entry':
-            results = interp.evaluate(symbols, entry=None)
+            # the serving runner is called repeatedly with different entries: three calls, all values compared
             leaves = interp.structure(symbols)['leaves']
-            value = results[id(leaves[0])] if len(leaves) == 1 else None
+            value = []
+            for entry in (None, 'e1', 'e2'):
+                results = interp.evaluate(symbols, entry=entry)
+                value.append(results[id(leaves[0])] if len(leaves) == 1 else None)
         elif backend == 'pyfunc':
-            value = pyfunc.Expression(symbols)(None)
+            expression = pyfunc.Expression(symbols)
+            value = [expression(entry) for entry in (None, 'e1', 'e2')]
         elif backend.startswith('dask-'):
             scheduler = backend.split('-', 1)[1]
             if scheduler == 'processes':
